@@ -31,7 +31,7 @@ ASSUMPTIONS = ['pandas: Index.intersection/union of sorted DatetimeIndexes are t
                'equals df_fillna(x, "ffill"), not x: theorems reindex_fill_own_nan, reindex_own_index_ffill/_bfill, law-reindex-own-index); without a fill method the NaN stays. '
                'Non-NaN cells are kept under every method (reindex_keep, reindex_fill_keeps)',
                'containers (rounds i4 / j4): list / tuple / dict and - tags DS / DD - instances of a dict SUBCLASS and collections.defaultdict, which `_list` opens and `loops` does not (known finding C03-S1, matcher dict_subclass_left_unaligned); presync lines with subclass containers are not generated. An explicit index is given as pd.Index / Series / dict(index=..): the LIST and ndarray spellings raise or work depending on the data (`df_reindex(a, [d1, d2])` works for one series, `df_reindex([a, b], [d1, d2])` raises - loops splits the list) and are outside these three spellings; intraday stamps and `pd.Series([], dtype=float)` members are not generated (probed: outer gives all-NaN on the datetime index, inner empty)',
-               "presync policy words (round k4, review v4 2.2): since repo fix fa3eb5f (C03-W1) inner / outer / left / right / ij / oj / lj / rj always mean the policy, whatever the parameters of the decorated function are called (presyncw lines: names left / right / inner / outer / x / y, policy as word, attribute or default); any OTHER string that names a parameter selects that argument's index (presyncn lines, names p0..p3). presync with columns != False is sampled (law-presync-columns) and, for pointwise functions, proved under C08 (binopFG_value); the ORDER of aligned columns is compared as a set"]
+               "presync policy words (round k4, review v4 2.2): since repo fix d00fd3f (C03-W1) inner / outer / left / right / ij / oj / lj / rj always mean the policy, whatever the parameters of the decorated function are called (presyncw lines: names left / right / inner / outer / x / y, policy as word, attribute or default); any OTHER string that names a parameter selects that argument's index (presyncn lines, names p0..p3). presync with columns != False is sampled (law-presync-columns) and, for pointwise functions, proved under C08 (binopFG_value); the ORDER of aligned columns is compared as a set"]
 S = 4
 nan = float('nan')
 VALS = [1.0, 2.0, 0.0, -1.5, 0.25, 3.0, 7.75, -4.0, 10.0, 20.5]
